@@ -6,5 +6,5 @@ Lemma sweep_agree_check : sweep agree_check = true.
 Proof. vm_compute. reflexivity. Qed.
 
 (* size of the product and of its allowed part (evidence; also shows the sweep is not over an empty domain) *)
-Lemma product_size : count (fun _ => true) = 190080%N /\ count policy_allows = 10240%N.
+Lemma product_size : count (fun _ => true) = 221760%N /\ count policy_allows = 10960%N.
 Proof. vm_compute. split; reflexivity. Qed.
